@@ -1041,3 +1041,105 @@ Proof.
   split; [assumption|]. split; [assumption|].
   split; eapply R_observables; eassumption.
 Qed.
+
+(* ------------------------------------------------------------------ refutations (witnesses by computation) *)
+Definition ramp_nat (b : N) (k : nat) : bytes :=
+  (fix go (b : N) (k : nat) := match k with O => [] | S k' => (b mod 256) :: go (b + 1) k' end) b k.
+Definition obj (b n : N) : bytes := ramp_nat b (N.to_nat n).
+
+Definition outs_of (cap : N -> N) (bs : N) (hist : list op) : list out :=
+  let '(_, _, outs) := run cap bs (new_heap bs, fs0) hist in outs.
+Definition heap_of (cap : N -> N) (bs : N) (hist : list op) : heap :=
+  let '(h, _, _) := run cap bs (new_heap bs, fs0) hist in h.
+Definition file_of (cap : N -> N) (bs : N) (hist : list op) : fstate :=
+  let '(_, fs, _) := run cap bs (new_heap bs, fs0) hist in fs.
+
+(* D12, the pinned capacity rule: 60 bytes are accepted into a 64-byte block; the serialised block holds only
+   the first 45 of them, and after store + load the id no longer resolves *)
+Lemma no_byte_lost_refuted_old_rule :
+  let d := obj 1 60 in
+  let id := mkid 0 60 in
+  bs_ok 64 = true /\ targets_live 64 [Ins d 0; SL; Get id] = true
+  /\ outs_of cap_old 64 [Ins d 0; Get id] = [OId id; OData d]
+  /\ bytes_eqb (slice (encode_dblock (h_blk (heap_of cap_old 64 [Ins d 0]))) (PREFIX + id_off id) (len d)) d = false
+  /\ outs_of cap_old 64 [Ins d 0; SL; Get id] = [OId id; OUnit; OErr].
+Proof. vm_compute. repeat split; reflexivity. Qed.
+
+(* with the repaired rule the same insert no longer fits the first block (it is not silently truncated) *)
+Lemma old_witness_excluded_new_rule : one_block 64 [Ins (obj 1 60) 0] = false.
+Proof. vm_compute. reflexivity. Qed.
+
+(* class "total volume exceeds one direct block": the insert that does not fit does not fail, the heap moves to
+   an indirect root, and what is written out can be read back neither by LoadFromFile nor by the two readers *)
+Lemma multi_block_refuted :
+  let a := obj 1 40 in let b := obj 101 40 in
+  let hist := [Ins a 0; Ins b 0] in
+  let idb := mkid 64 40 in
+  bs_ok 64 = true /\ targets_live 64 hist = true /\ one_block 64 hist = false
+  /\ outs_of cap_new 64 (hist ++ [Get idb; SL]) = [OId (mkid 0 40); OId idb; OData b; OErr]
+  /\ (let '(h1, fs1, ha) := store (heap_of cap_new 64 hist) (file_of cap_new 64 hist) in
+      ro_read (f_bytes fs1) ha idb = Err /\ core_read (f_bytes fs1) ha idb = Err
+      /\ ro_read (f_bytes fs1) ha (mkid 0 40) = Err).
+Proof. vm_compute. repeat split; reflexivity. Qed.
+
+(* ... and a failing insert on the indirect path has already changed the heap (a third block is registered,
+   managed space and free space have grown) *)
+Lemma full_refuted_indirect :
+  let hist := [Ins (obj 1 40) 0; Ins (obj 2 40) 0] in
+  let h := heap_of cap_new 64 hist in
+  let '(h', r) := insert cap_new h (obj 3 40) 0 in
+  r = Err /\ h_mansize h = 128 /\ h_mansize h' = 192 /\ h_free h' = h_free h + 64
+  /\ length (h_others h') = S (length (h_others h)).
+Proof. vm_compute. repeat split; reflexivity. Qed.
+
+(* class "delete of an id that is not live": accepted, and the header accounting is corrupted *)
+Lemma dead_id_refuted :
+  let id := mkid 0 10 in
+  let hist := [Ins (obj 1 10) 0; Del id; Del id] in
+  bs_ok 64 = true /\ one_block 64 hist = true /\ targets_live 64 hist = false
+  /\ outs_of cap_new 64 hist = [OId id; OUnit; OUnit]
+  /\ h_nobj (heap_of cap_new 64 hist) = 18446744073709551615
+  /\ h_free (heap_of cap_new 64 hist) = 74.
+Proof. vm_compute. repeat split; reflexivity. Qed.
+
+(* block sizes above 64 KiB (dense groups use 512 KiB): 2-byte offsets wrap; two live objects get ids with
+   overlapping ranges and get returns the bytes of another object *)
+Lemma offset_wrap_refuted :
+  let a := repeat 1 (N.to_nat 65536) in
+  let b := repeat 2 (N.to_nat 10) in
+  let hist := [Ins a 0; Ins b 0] in
+  bs_ok 524288 = false
+  /\ outs_of cap_new 524288 (hist ++ [Get (mkid 0 10)]) = [OId (mkid 0 65536); OId (mkid 0 10); OData (repeat 1 (N.to_nat 10))]
+  /\ disjoint_ids (mkid 0 65536) (mkid 0 10) = false.
+Proof. vm_compute. repeat split; reflexivity. Qed.
+
+(* ------------------------------------------------------------------ non-vacuity *)
+Definition demo_hist : list op :=
+  let a := obj 1 20 in let b := obj 50 5 in let c := obj 90 20 in
+  [Ins a 0; Ins b 0; Get (mkid 0 20); Ovw (mkid 0 20) (obj 7 20); Ovw (mkid 0 20) (obj 7 19); SL; Get (mkid 0 20);
+   Del (mkid 20 5); Ins [] 0; SL; Ins c 0; Get (mkid 25 20); SL; Get (mkid 25 20); Get (mkid 0 20)].
+
+(* a history that fills a 64-byte block exactly to its usable size (45), with every kind of operation and
+   three store/load cycles, is admissible, and the model's answers are the expected ones *)
+Example demo_admissible :
+  bs_ok 64 = true /\ one_block 64 demo_hist = true /\ targets_live 64 demo_hist = true.
+Proof. vm_compute. repeat split; reflexivity. Qed.
+
+Example demo_outputs :
+  outs_of cap_new 64 demo_hist =
+  [OId (mkid 0 20); OId (mkid 20 5); OData (obj 1 20); OUnit; OErr; OUnit; OData (obj 7 20);
+   OUnit; OErr; OUnit; OId (mkid 25 20); OData (obj 90 20); OUnit; OData (obj 90 20); OData (obj 7 20)]
+  /\ h_nobj (heap_of cap_new 64 demo_hist) = 2 /\ h_free (heap_of cap_new 64 demo_hist) = 24
+  /\ db_free (h_blk (heap_of cap_new 64 demo_hist)) = 45.
+Proof. vm_compute. repeat split; reflexivity. Qed.
+
+(* the next byte does not fit: the history leaves the single-block class *)
+Example demo_overflow_excluded : one_block 64 (demo_hist ++ [Ins [1] 0]) = false.
+Proof. vm_compute. reflexivity. Qed.
+
+(* both read-only readers return the stored bytes from the file written after demo_hist *)
+Example demo_readers :
+  let '(h1, fs1, ha) := store (heap_of cap_new 64 demo_hist) (file_of cap_new 64 demo_hist) in
+  ro_read (f_bytes fs1) ha (mkid 25 20) = Ok (obj 90 20) /\ core_read (f_bytes fs1) ha (mkid 25 20) = Ok (obj 90 20)
+  /\ ro_read (f_bytes fs1) ha (mkid 0 20) = Ok (obj 7 20) /\ core_read (f_bytes fs1) ha (mkid 0 20) = Ok (obj 7 20).
+Proof. vm_compute. repeat split; reflexivity. Qed.
